@@ -286,12 +286,18 @@ func (r *Run) Finish() int {
 	if ev.Assumptions == nil {
 		ev.Assumptions = []string{}
 	}
-	os.MkdirAll(filepath.Join(Root, "evidence"), 0o755)
+	// runs against a scratch copy of the repository (mutation testing) keep their evidence and
+	// replays in their private directory: /verif/evidence only ever describes /repo
+	outRoot := Root
+	if d := os.Getenv("VERIF_OUT"); d != "" {
+		outRoot = d
+	}
+	os.MkdirAll(filepath.Join(outRoot, "evidence"), 0o755)
 	b, err := json.MarshalIndent(ev, "", " ")
 	if err != nil {
 		Fatal("evidence marshal: %v", err)
 	}
-	if err := os.WriteFile(filepath.Join(Root, "evidence", r.Prop+".json"), append(b, '\n'), 0o644); err != nil {
+	if err := os.WriteFile(filepath.Join(outRoot, "evidence", r.Prop+".json"), append(b, '\n'), 0o644); err != nil {
 		Fatal("evidence write: %v", err)
 	}
 	fmt.Printf("%s %s: evaluations=%d distinct_nontrivial=%d exhaustive=%v wall=%.1fs counters=%v\n", r.Prop, r.Tier,
@@ -299,10 +305,10 @@ func (r *Run) Finish() int {
 	if len(r.violations) == 0 {
 		return 0
 	}
-	os.MkdirAll(filepath.Join(Root, "replays"), 0o755)
+	os.MkdirAll(filepath.Join(outRoot, "replays"), 0o755)
 	for _, v := range r.violations {
 		h := sha1.Sum([]byte(v.Sig))
-		p := filepath.Join(Root, "replays", r.Prop+"-"+hex.EncodeToString(h[:6])+".json")
+		p := filepath.Join(outRoot, "replays", r.Prop+"-"+hex.EncodeToString(h[:6])+".json")
 		b, _ := json.MarshalIndent(map[string]interface{}{"property": r.Prop, "signature": v.Sig, "what": v.What, "replay": v.Replay, "cases_with_this_signature": r.violSigs[v.Sig]}, "", " ")
 		os.WriteFile(p, append(b, '\n'), 0o644)
 		fmt.Printf("VIOLATION property=%s replay=%s\n", r.Prop, p)
